@@ -25,12 +25,12 @@ SOURCES = [
     '<dtml-in dl reverse><dtml-var sequence-item></dtml-in>|<dtml-in seq reverse><dtml-var sequence-item></dtml-in>',
     '',
     # (with CR LF line ends: every way of giving the template its text keeps them the same way)
-    'Dear\r\n<dtml-if a>\r\n A \r\n</dtml-if>\r\n<dtml-in seq start=st size=2><dtml-var sequence-item>;</dtml-in><dtml-let x="1+1"><dtml-var x></dtml-let>'
+    'Dear <dtml-var _u missing=nobody>\r\n<dtml-if a>\r\n A \r\n</dtml-if>\r\n<dtml-in seq start=st size=2><dtml-var sequence-item>;</dtml-in><dtml-let x="1+1"><dtml-var x></dtml-let>'
     '<dtml-var sub><dtml-if a>A<dtml-var a><dtml-else>B</dtml-if><dtml-try><dtml-var nope><dtml-except>E</dtml-try>'
     # faults inside block tags that are handled inside the template: nothing of the failed block may stay behind
     '<dtml-try><dtml-let p="1" q=nope2>never</dtml-let><dtml-except>L</dtml-try><dtml-try><dtml-with o><dtml-in seq><dtml-var nope3></dtml-in>'
     '</dtml-with><dtml-except>W</dtml-try><dtml-try><dtml-in seq sort_expr="nope4">x</dtml-in><dtml-except>S</dtml-try>',
-    '<dtml-in m mapping sort=k reverse><dtml-var k></dtml-in><dtml-with o><dtml-var y></dtml-with>&dtml-a;'
+    '<dtml-if _u>u<dtml-else>no-u</dtml-if><dtml-in m mapping sort=k reverse><dtml-var k></dtml-in><dtml-with o><dtml-var y></dtml-with>&dtml-a;'
     '<dtml-in m mapping reverse_expr="rv"><dtml-var k missing=-></dtml-in>'
     # what a sort specification resolves in the namespace of the render (a comparison function by name, the value of
     # sort_expr with options) belongs to that render only
@@ -63,11 +63,19 @@ class O:
 
 
 def defaults(name):
+    """what the template's defaults must be (construction keywords laid over the construction mapping)"""
     if name == 'd0':
-        return {'dl': [1, 2, 3], 'a': 'dflt<'}
+        return {'dl': [1, 2, 3], 'a': 'dflt<', '_u': 'U0'}
     if name == 'd1':
-        return {'dl': [7, 8], 'a': 'd1', 'st': 2}
+        return {'dl': [7, 8], 'a': 'd1', 'st': 2, '_u': 'U1'}
     return {}
+
+
+def given_as(name):
+    """how they are handed over: a mapping plus keywords (a keyword may carry any name, also one starting with an underscore)"""
+    d = defaults(name)
+    kw = {k: d.pop(k) for k in ('a', '_u') if k in d}
+    return d, kw
 
 
 def namespaces():
@@ -121,7 +129,7 @@ def fresh_sub(b, d, i, k):
     from DocumentTemplate.DT_HTML import HTML
     key = ('sub', b, d, i, k % 5)
     if key not in _fresh:
-        _fresh[key] = sub_outcome(HTML(SOURCES[b - 1], defaults(d)), caller_namespace(namespaces()[i - 1]), k)
+        _fresh[key] = sub_outcome(HTML(SOURCES[b - 1], given_as(d)[0], **given_as(d)[1]), caller_namespace(namespaces()[i - 1]), k)
     return _fresh[key]
 
 
@@ -131,7 +139,7 @@ def fresh(b, d, i, text_mode=False):
     key = (b, d, i, text_mode)
     if key not in _fresh:
         src = SOURCES[b - 1].replace('\r\n', '\n') if text_mode else SOURCES[b - 1]
-        _fresh[key] = outcome(HTML(src, defaults(d)), namespaces()[i - 1])
+        _fresh[key] = outcome(HTML(src, given_as(d)[0], **given_as(d)[1]), namespaces()[i - 1])
     return _fresh[key]
 
 
@@ -150,8 +158,8 @@ def run_history(h):
     hist, outs = h['hist'], h['outs']
     nss = namespaces()
     pristine = [plain(n) for n in nss]
-    given = defaults('d0')
-    t = HTML(SOURCES[hist[0][1] - 1], given)
+    given, gkw = given_as('d0')
+    t = HTML(SOURCES[hist[0][1] - 1], given, **gkw)
     cur_defaults = 'd0'
     k = 0
     mds = [caller_namespace(n) for n in nss]          # the callers' namespaces live as long as the history
@@ -185,7 +193,7 @@ def run_history(h):
             quiet(lambda: t.munge(SOURCES[arg - 1]))
         elif op == 'defaults':
             cur_defaults = 'd1' if arg else 'empty'
-            quiet(lambda: t.munge(None, defaults(cur_defaults)))
+            quiet(lambda: t.munge(None, given_as(cur_defaults)[0], **given_as(cur_defaults)[1]))
         elif op == 'cook':
             quiet(t.cook)
         for j, n in enumerate(nss):
@@ -195,7 +203,7 @@ def run_history(h):
         if t.globals != defaults(cur_defaults):
             return {'step': step, 'op': [op, arg], 'why': 'template defaults modified',
                     'before': repr(defaults(cur_defaults)), 'after': repr(t.globals)[:200]}
-        if given != defaults('d0'):
+        if given != given_as('d0')[0]:
             return {'step': step, 'op': [op, arg], 'why': 'construction mapping modified', 'after': repr(given)[:200]}
     return None
 
@@ -214,7 +222,7 @@ def run_file_history(h):
     try:
         write(disk)
         nss = namespaces()
-        t = HTMLFile(path, defaults('d0'))
+        t = HTMLFile(path, given_as('d0')[0], **given_as('d0')[1])
         k = 0
         for step, (op, arg) in enumerate(hist[1:], 1):
             if op == 'render':
